@@ -64,6 +64,8 @@ fn new_tr<'a>(idx: &'a Index, reg: &'a Registry, cur: &'a FnEntry) -> Tr<'a> {
         generics: Vec::new(),
         const_generics: Vec::new(),
         uses_fuel: false,
+        deferred: Default::default(),
+        live_after: Vec::new(),
         fuel_uses: 0,
         hoisted: Vec::new(),
         loop_count: 0,
@@ -311,6 +313,7 @@ fn translate_fn(idx: &Index, reg: &Registry, t: &Target, texts: &BTreeMap<String
     }
     // parameters
     let mut params: Vec<(String, Ty)> = Vec::new();
+    let mut pat_params: Vec<(String, Pat)> = Vec::new();
     for inp in &f.sig.inputs {
         match inp {
             syn::FnArg::Receiver(r) => {
@@ -340,7 +343,13 @@ fn translate_fn(idx: &Index, reg: &Registry, t: &Target, texts: &BTreeMap<String
                 match &*pt.pat {
                     Pat::Ident(pi) => params.push((pi.ident.to_string(), ty)),
                     Pat::Wild(_) => params.push((format!("_arg{}", params.len()), ty)),
-                    _ => return Err("pattern in parameter position".into()),
+                    other => {
+                        // `StrJoinArgs { sep, slice }: StrJoinArgs`: a fresh parameter, destructured by a `let` that
+                        // is put in front of the body
+                        let nm = format!("arg{}_", params.len());
+                        params.push((nm.clone(), ty));
+                        pat_params.push((nm, other.clone()));
+                    }
                 }
             }
         }
@@ -379,10 +388,19 @@ fn translate_fn(idx: &Index, reg: &Registry, t: &Target, texts: &BTreeMap<String
             }
         }
     };
-    let stmts: &Vec<Stmt> = match &arm_block {
+    let stmts0: &Vec<Stmt> = match &arm_block {
         Some(b) => &b.stmts,
         None => &f.block.stmts,
     };
+    // parameters written as patterns: `let <pattern> = <fresh parameter>;` in front of the body
+    let mut stmts_owned: Vec<Stmt> = Vec::new();
+    for (nm, pat) in &pat_params {
+        let id = syn::Ident::new(nm, proc_macro2::Span::call_site());
+        let st: Stmt = syn::parse_quote! { let #pat = #id; };
+        stmts_owned.push(st);
+    }
+    stmts_owned.extend(stmts0.iter().cloned());
+    let stmts: &Vec<Stmt> = &stmts_owned;
     let (body, _ty, _div) = if tr.mut_self {
         let outs = vec!["self".to_string()];
         tr.block_lines(stmts, &outs, true, Some(&user_ret))?
